@@ -35,7 +35,10 @@ CFG_N = CFG.copy(nested="assembly")
 @st.composite
 def _case(draw, cfg):
     spec = draw(gen.model_spec(cfg))
-    gen.chain_components(spec)
+    for t in spec["tasks"]:
+        if t["comp"] is None and not t["nf"] and draw(st.integers(0, 7)) == 0:
+            t["auto"] = True
+            t["sub"] = {"unit_s": 60}
     ops = draw(
         st.lists(
             st.one_of(
